@@ -326,6 +326,21 @@ F("SYNC-method-target-appended-every-run", SYNCP,
   "SYNC-method-target-created-at-module-level)",
   ["Idempotent", "OldOrNew", "FrameKept"], when={"k": "sync", "target": "function", "ctx": "method", "extra": True})
 
+F("SYNC-nested-class-target-created-at-module-level", SYNCP,
+  "sync with a nested class target `Outer.ConfigClass` that does not exist yet (file missing / empty / Outer without it / no Outer) "
+  "appends a top-level `class ConfigClass` instead of a member of Outer; `Outer.ConfigClass` still does not resolve "
+  "(the same defect as SYNC-method-target-created-at-module-level)",
+  ["Agreement"], when={"k": "sync", "target": "class", "ctx": "nested", "pre": ["missing", "empty", "mod-absent"], "extra": True})
+F("SYNC-nested-class-target-appended-every-run", SYNCP,
+  "sync with a nested class target that is never found appends another top-level class on every run",
+  ["Idempotent", "OldOrNew", "FrameKept"], when={"k": "sync", "target": "class", "ctx": "nested", "extra": True})
+
+F("SYNC-argparse-target-of-function-truth-cannot-become-truth", SYNCP,
+  "an argparse function that sync generated from a function truth with a return entry returns a tuple but documents only "
+  "`:rtype: ArgumentParser` (see ARGPARSE-untyped-return-crash); named as the truth of the next invocation it cannot be parsed "
+  "(AttributeError)",
+  ["NoInternalError"], when={"k": "sync", "truth": "argparse", "exc": "AttributeError", "switched": True})
+
 # ------------------------------------------------------------------------------------------------ merge (C07, C12)
 F("MERGE-undocumented-kwargs-dropped", ["C07"],
   "parse.function / parse.class_ keep a **kwargs parameter only when the docstring documents it (adding it is pinned out by the "
